@@ -163,6 +163,9 @@ def tri_tok(m):
 
 def correspond(ctx, corr):
     from dali import frame, command
+    import logging
+    logging.disable(logging.CRITICAL)
+    sim._stub_modules()
     ids = cmdlib.ClassIds()
     found = cmdlib.catalogue(ctx.rng)
     picks = pick_commands(found)
@@ -202,7 +205,7 @@ def check_table(corr, gw, c, bus, impl, ids, history=None):
     outcome = {"s": "silent", "g": "garbled"}.get(bus, "value")
     exp = ("None" if c.response is None else "%s(%s)" % (
         c.response.__name__, {"s": "None", "g": "BackwardFrameError"}.get(bus, "BackwardFrame(%s)" % bus[1:])))
-    corr.violate("answer:%s:%s:%s" % (gw, outcome, kind),
+    corr.violate("%s:%s:%s:%s" % ("routing" if history else "answer", gw, outcome, kind),
                  history or {"gateway": gw, "command": str(c), "frame": str(c.frame), "bus": bus},
                  exp, impl, "send() result does not conform to the answer table")
     return False
@@ -356,13 +359,19 @@ def suite_serial(ctx, corr, ids, picks, allcmds):
         async def main(loop, kind=kind):
             ss = await sim.SerialSim(kind).start()
             d = ss.d
+            ss.auto_confirm(0.002)
 
             async def one(c, ans, garbled=False):
                 ss.tr.written.clear()
                 t = asyncio.ensure_future(d.send(c))
                 await sim.settle(3)
-                ss.confirm(ss.tr.written[-1])
-                await sim.settle(3)
+                # every write (an ENABLE DEVICE TYPE prefix, then the command) is confirmed 2 ms later
+                for _ in range(8):
+                    n = len(ss.tr.written)
+                    await asyncio.sleep(0.0021)
+                    await sim.settle(3)
+                    if len(ss.tr.written) == n:
+                        break
                 if garbled:
                     # the gateway reports a framing error on the bus
                     if kind == "luba":
@@ -434,6 +443,11 @@ def suite_daliserver(ctx, corr, ids, picks, allcmds):
     for c in allcmds:
         for bus in (BUSES_FULL if c is picks[(16, True, False)] else BUSES_FEW):
             rep = bytes(int(x) for x in ask(["enc daliserver %d 0 %s 9" % (c.sendtwice, bus)])[0].split()[1:])
+            if len(c.frame) != 16:
+                # daliserver carries 16-bit frames only (C18): the mapping alone
+                check_table(corr, "daliserver", c, bus, unpack(c, rep), ids)
+                n += 1
+                continue
             sock = FakeSocket([rep, rep] if c.sendtwice else [rep])
             dsv.socket = types.SimpleNamespace(create_connection=lambda target, s=sock: s)
             try:
@@ -496,6 +510,7 @@ def atx_tokens(lines):
 def suite_atx(ctx, corr, ids, picks, allcmds):
     import logging
     import threading
+    sim._stub_modules()
     if "serial" not in sys.modules:
         try:
             import serial  # noqa
@@ -617,9 +632,27 @@ def route_tridonic(ctx, corr, ids, picks):
                 else:
                     raise AssertionError("unattributed write")
         absorb_writes()
-        seqs = {}
         step = 0
         finished = {}
+
+        async def poll():
+            """let the callers run, then ask every unfinished one where it stands"""
+            await sim.settle(5)
+            absorb_writes()
+            for idx, i in list(owner.items()):
+                if idx in finished:
+                    continue
+                toks.append("R.%d" % idx)
+                t = tasks[i]
+                if t.done():
+                    try:
+                        r = canon_answer(t.result(), ids)
+                        expect.append("done:" + r)
+                    except BaseException as e:  # noqa
+                        expect.append("raise." + type(e).__name__)
+                    finished[idx] = True
+                else:
+                    expect.append("blocked")
         while True:
             live = [idx for idx, reps in pending.items() if reps]
             if not live:
@@ -634,28 +667,18 @@ def route_tridonic(ctx, corr, ids, picks):
             toks.append("D.%d.%s" % (pick, tri_tok(m)))
             expect.append(("to=%d" % pick) if was_out else "drop")
             history.append("report %s for seq %d" % (tri_tok(m), seq))
-            if stale and step == stale:
-                # the firmware's duplicate echo of the last frame, and a report for a finished number
-                ts.deliver(sim.tri_packet(0x12, m[0], m[1:5], seq))
-                toks.append("D.%d.%s" % (pick, tri_tok(m)))
+            if stale and not pending[pick] and (step + stale) % 2 == 0:
+                # the firmware's duplicate echo of the last transmitted frame (another master repeated
+                # it): it carries the sequence number of a command whose last report has been delivered
+                if stale >= 2:
+                    await poll()              # … and whose caller has already gone
+                was_out = seq in d._outstanding
+                echo = (0x76 if len(callers[owner[pick]][0].frame) == 24 else 0x73, 0, 0, 0, 0)
+                ts.deliver(sim.tri_packet(0x12, echo[0], echo[1:5], seq))
+                toks.append("D.%d.%s" % (pick, tri_tok(echo)))
                 expect.append(("to=%d" % pick) if was_out else "drop")
-                history.append("duplicate report %s for seq %d" % (tri_tok(m), seq))
-            await sim.settle(5)
-            absorb_writes()
-            for idx, i in owner.items():
-                if idx in finished:
-                    continue
-                toks.append("R.%d" % idx)
-                t = tasks[i]
-                if t.done():
-                    try:
-                        r = canon_answer(t.result(), ids)
-                        expect.append("done:" + r)
-                    except BaseException as e:  # noqa
-                        expect.append("raise." + type(e).__name__)
-                    finished[idx] = True
-                else:
-                    expect.append("blocked")
+                history.append("duplicate echo for seq %d after its last report" % seq)
+            await poll()
         await sim.settle(5)
         results = []
         for i, t in enumerate(tasks):
@@ -695,14 +718,12 @@ def route_tridonic(ctx, corr, ids, picks):
     for ca, cb in itertools.product(cmdpool, repeat=2):
         if ca is cb:
             continue
-        if not ctx.thorough and rng.random() < 0.5:
-            continue
         callers = [(ca, bus_of(rng, ca.response)), (cb, bus_of(rng, cb.response))]
         na = (2 if ca.sendtwice else 1) + 1
         nb = (2 if cb.sendtwice else 1) + 1
         for merge in interleavings([[0] * na, [1] * nb]):
             run_one(callers, merge, "flight", rng.choice([1, 100, 253, 254, 255]), 0)
-    n = 250 if ctx.thorough else 60
+    n = 1500 if ctx.thorough else 300
     for _ in range(n):
         k = rng.randrange(1, 4)
         callers = []
@@ -722,35 +743,35 @@ def route_hasseb(ctx, corr, ids, picks):
     traces = 0
     pool = [picks[k] for k in KINDS if k[0] == 16]
 
-    async def scenario(loop, callers, stale_before, late_dup):
+    async def scenario(loop, callers, stale_before, late_dup, queued):
         hs = await sim.HassebSim().start()
         d = hs.d
         toks, expect, history = [], [], []
-        writes = []
-        hs.fos.on_write = lambda data: writes.append(data)
-        tasks = [asyncio.ensure_future(d.send(c)) for c, _ in callers]
+        tasks = {}
+        if queued:
+            for i, (c, _) in enumerate(callers):
+                tasks[i] = asyncio.ensure_future(d.send(c))
         results = [None] * len(callers)
         for i, (c, bus) in enumerate(callers):
-            if stale_before[i]:
-                # a report left over from before this command's write is in the slot
-                pass
+            if stale_before[i] and not queued:
+                # a report nobody waits for (left over / unsolicited) is stored before this command is written
+                hs.deliver(2, 0xEE)
+                toks.append("P.2.238")
+                expect.append("-")
+                history.append("unsolicited report status 2 byte 0xEE while idle")
+            if not queued:
+                tasks[i] = asyncio.ensure_future(d.send(c))
             await sim.settle(4)
             # caller i holds the locks now and has written
             toks.append("W.%d.%s.%d" % (i, ids.tok(c.response), c.sendtwice))
             if c.response is None:
-                await sim.settle(3)
                 try:
                     r = "ok." + canon_answer(tasks[i].result(), ids)
                 except BaseException as e:  # noqa
                     r = "err." + type(e).__name__
                 expect.append(r)
-                results[i] = r.replace(".", " ", 1)
+                results[i] = (r.replace(".", " ", 1), False)
                 history.append("caller %d writes non-query %s" % (i, c.frame))
-                if stale_before[i]:
-                    hs.deliver(2, 0xEE)      # an unsolicited report nobody waits for
-                    toks.append("P.2.238")
-                    expect.append("-")
-                    history.append("unsolicited report status 2 byte 0xEE")
                 continue
             expect.append("-")
             history.append("caller %d writes query %s" % (i, c.frame))
@@ -773,11 +794,11 @@ def route_hasseb(ctx, corr, ids, picks):
             except BaseException as e:  # noqa
                 r = "err." + type(e).__name__
             expect.append(r)
-            results[i] = r.replace(".", " ", 1)
+            results[i] = (r.replace(".", " ", 1), late_dup[i])
         return toks, expect, results, history
 
     rng = ctx.rng
-    n = 200 if ctx.thorough else 60
+    n = 1500 if ctx.thorough else 300
     for _ in range(n):
         k = rng.randrange(1, 4)
         callers = []
@@ -785,16 +806,18 @@ def route_hasseb(ctx, corr, ids, picks):
             c = rng.choice(pool)
             callers.append((c, bus_of(rng, c.response)))
         stale = [rng.random() < 0.5 for _ in range(k)]
-        dup = [False] * k
-        toks, expect, results, history = sim.run(scenario, callers, stale, dup)
+        dup = [rng.random() < 0.15 for _ in range(k)]
+        toks, expect, results, history = sim.run(scenario, callers, stale, dup, rng.random() < 0.4)
         line = "slotroute " + " ".join(toks)
         ans = ask([line])[0]
         got = ans.split()[1:] if ans.startswith("ok") else [ans]
         if got != expect:
             corr.disagree("hasseb_routing", {"trace": line, "history": history}, got, expect)
         for i, (c, bus) in enumerate(callers):
-            check_table(corr, "hasseb", c, bus, results[i], ids,
-                        history={"routing": history, "caller": i, "command": str(c), "bus": bus})
+            r, overwritten = results[i]
+            if not overwritten:
+                check_table(corr, "hasseb", c, bus, r, ids,
+                            history={"routing": history, "caller": i, "command": str(c), "bus": bus})
         traces += 1
     corr.count("traces", traces)
     corr.count("hasseb_routing", traces)
@@ -810,6 +833,7 @@ def route_serial(ctx, corr, ids, picks):
     async def scenario(loop, kind, callers, strays, late, info_stale):
         ss = await sim.SerialSim(kind).start()
         d = ss.d
+        ss.auto_confirm(0.017)
         toks, expect, history = [], [], []
         results = []
         for i, (c, bus) in enumerate(callers):
@@ -828,17 +852,21 @@ def route_serial(ctx, corr, ids, picks):
             toks.append("L.%d.%s" % (i, ids.tok(c.response)))
             expect.append("-")
             history.append("caller %d sends %s" % (i, c.frame))
-            # the frame goes out ~17 ms after the write, then the gateway confirms
-            await asyncio.sleep(0.017)
-            ss.confirm(ss.tr.written[-1])
-            await sim.settle(3)
+            # each frame goes out ~17 ms after its write, then the gateway confirms
+            for _ in range(8):
+                n = len(ss.tr.written)
+                await asyncio.sleep(0.0171)
+                await sim.settle(3)
+                if len(ss.tr.written) == n:
+                    break
             w = ask(["enc %s %d 0 %s 0" % (kind, c.sendtwice, bus)])[0].split()[1]
             if w != "T":
-                await asyncio.sleep(0.012 if not late[i] else 0.040)
+                delay = 0.040 if late[i] else [0.005, 0.012, 0.020][(i + len(strays[i])) % 3]
+                await asyncio.sleep(delay)
                 ss.rx([int(w)])
                 toks.append("X.%d" % int(w))
                 expect.append("-")
-                history.append("backward frame %d, %s ms after the confirmation" % (int(w), 40 if late[i] else 12))
+                history.append("backward frame %d, %d ms after the confirmation" % (int(w), round(delay * 1000)))
             try:
                 r = "ok." + canon_answer(await t, ids)
             except BaseException as e:  # noqa
@@ -861,7 +889,7 @@ def route_serial(ctx, corr, ids, picks):
         return toks, expect, results, history
 
     rng = ctx.rng
-    n = 160 if ctx.thorough else 40
+    n = 800 if ctx.thorough else 150
     for kind in ("luba", "sci"):
         for _ in range(n):
             k = rng.randrange(1, 4)
